@@ -116,6 +116,31 @@ claim("C10", "E1", "exhaustive should_rerun decision table + hypothesis generate
       "worker (with several workers the hung-test recovery admits another worker, which is not a retry); object "
       "creation is excluded from the per-execution pairing because failed configuration steps count as tries.")
 
+_E2NOTE = ("Real parser (third-party Cartesian parser memoised and self-checked); lazy inputs are expanded by a simulated "
+           "all-PASS traversal at the E1 seams; selections always name a primary test set; inputs above a size bound are "
+           "skipped and counted; only the shipped suite (no generated suites).")
+claim("C06", "E2", "hypothesis generated selections/restrictions/worker sets -> parsed graph vs structural invariants",
+      "Generated graph inputs (selection grammar x per-vm restrictions incl. none x worker sets incl. restricted nets and "
+      "clusters x eager or lazy, plus a second image per vm to obtain multi-object edges) are parsed by the real code and "
+      "exported to a neutral form read from both ends of every edge; invariants: unique names/ids, one representation per "
+      "test and worker, exactly one shared root, symmetric edges with equal object sets, acyclic, reachable from the root, "
+      "one net object first and the vms of the parameters, exactly one same-worker same-variant parent setting exactly the "
+      "required state per object (or the creation node), clone sources not runnable, validate() passes.",
+      _E2NOTE)
+claim("C07", "E2", "hypothesis generated graph inputs vs independent resolver (own restriction matcher over the sets.cfg universe)",
+      "For every node and object with a declared dependency the attached parents must be producers matched by an own "
+      "implementation of the restriction algebra over the separately parsed universe of test names, none missing, none "
+      "spurious, none duplicated per worker (one representation per test, also across test sets), and a dependency "
+      "resolving to several producers must be cloned once per producer (clone count = producer count).",
+      _E2NOTE + " Oracle A of the design (generated suites with a known DAG) is not built; the resolver is oracle B.")
+claim("C09", "E2", "hypothesis generated graph inputs: worker-copy isomorphism, bridging/register sharing, lazy vs eager differential, double parse",
+      "Per generated input: (1) the copies of all workers are equal up to naming, a node may be missing only where the "
+      "worker's restrictions (own matcher) exclude it or everything that needs it; (2) equivalent nodes are bridged "
+      "symmetrically and completely and hold identical registers, and every visit registered during a lazy traversal is "
+      "reported through every equivalent node; (3) lazily expanded tests have exactly the parents of the complete graph "
+      "and every test of the complete graph is expanded by some worker; (4) parsing twice gives identical exports.",
+      _E2NOTE + " Clone sources (never runnable bookkeeping nodes) are left out of the comparisons.")
+
 _pending = "check not built yet in this round (planned in DESIGN.md section 4); not claimed until it runs"
 for _i in range(1, 21):
     _p = f"C{_i:02d}"
